@@ -98,6 +98,22 @@ fn check_diagram(dg: &Dg, states: &[u64], what: &str) -> Chk<(usize, usize, i32)
             let (cnt, _) = dg.circles(s);
             ensure!(r.len() == cnt, "{what}: state {s:b}: {} components, edge-identification count {cnt}", r.len());
             ensure!(r.iter().all(|c| c.1), "{what}: state {s:b}: a component of a complete resolution is not a circle");
+            // the same state reached one crossing at a time: resolved_at(i, bit) with i = position among the crossings still
+            // unresolved, in an order derived from s
+            let mut remaining: Vec<usize> = (0..n).collect();
+            let mut st = s ^ 0x9E37_79B9_7F4A_7C15;
+            let (mut left2, mut r2): (usize, Vec<(Vec<usize>, bool)>) = (0, vec![]);
+            call("resolved_at()", &mut || {
+                let mut l2 = link.clone();
+                while !remaining.is_empty() {
+                    st = st.wrapping_mul(6364136223846793005).wrapping_add(1442695040888963407);
+                    let p = (st >> 33) as usize % remaining.len();
+                    let orig = remaining.remove(p);
+                    l2 = l2.resolved_at(p, if (s >> orig) & 1 == 1 { yui::bitseq::Bit::Bit1 } else { yui::bitseq::Bit::Bit0 });
+                }
+                left2 = l2.crossing_num(); r2 = lib_components(&l2);
+            })?;
+            ensure!(left2 == 0 && r2.len() == cnt, "{what}: state {s:b} reached by successive resolved_at calls: {left2} crossings left, {} components, edge-identification count {cnt}", r2.len());
         }
     }
     // ---- Seifert circles: oriented smoothing pairs each incoming end with the adjacent outgoing end
@@ -182,7 +198,7 @@ impl Prop for C18 {
     const ID: &'static str = "C18";
     fn rule() -> String {
         "case = (diagram: any table link (up to 12 crossings), braid closure, torus link or corner case with 0..3 modifications (kinks of four kinds, circle over/under an edge, split union, connected sum, renumbering, reordering, reversal, mirror); 4 random states; optionally a braid word on 2..8 strands of length 0..14 with every strand touched). \
-         oracle (own half-edge combinatorics): components() partitions the edge set into the orbits of the strand-through-crossing relation, in strand order up to rotation/reversal, all closed; crossing_signs() equals the reference signs for some orientation of the components that never pass under; n+, n-, writhe consistent and unchanged by renumbering, reordering and global reversal, swapped/negated by mirror(); every complete resolution (all states for n <= 6, sampled otherwise) has no crossing left, only circles, and as many as the edge-identification count; seifert_circles() count equals the oriented-smoothing count; \
+         oracle (own half-edge combinatorics): components() partitions the edge set into the orbits of the strand-through-crossing relation, in strand order up to rotation/reversal, all closed; crossing_signs() equals the reference signs for some orientation of the components that never pass under; n+, n-, writhe consistent and unchanged by renumbering, reordering and global reversal, swapped/negated by mirror(); every complete resolution (all states for n <= 6, sampled otherwise; reached by resolved_by and again by successive resolved_at calls in a generated order) has no crossing left, only circles, and as many as the edge-identification count; seifert_circles() count equals the oriented-smoothing count; \
          Braid::closure(): components == permutation cycles, crossings == letters, writhe == exponent sum, signs == letter signs, closed components, and the same Kauffman state sum as the harness's own closure. \
          non-trivial = >= 2 components, or a kink, or a component that only passes over, or a braid on >= 3 strands with both signs".into()
     }
